@@ -42,7 +42,7 @@ RULE = ("fmtcat_sep catalogue: all 14 valid I/L/T/C combinations uniform across 
         "separator-free grid of the same lengths. Second stage: every accepted input stripped (R1), every accepted separator-free "
         "input with separators inserted at each enabled position kind of each digit-bearing component (R3). "
         "non-trivial = accepted input; distinct = distinct op lines")
-TECHNIQUE = ("Lean 4 theorems about the skip-iterator / parse_number model (what peek skips, separator-free inputs, strip for the "
+TECHNIQUE = ("Lean 4 theorems about the skip-iterator / parse_number model (what peek skips, separator-free inputs, strip and insert for the "
              "I+L+T+C class) + metamorphic check of the implementation (strip, position classifier, insert, separator-free counterpart)")
 LEVEL_TEXT = ("Proved in Lean on the model (Model.Iter + Model.ParseNumber, all inputs): (1) every skip iterator's peek moves only over "
               "separator bytes and parse_digits yields exactly the non-separator bytes of the region it consumed, in order; (2) "
@@ -51,8 +51,9 @@ LEVEL_TEXT = ("Proved in Lean on the model (Model.Iter + Model.ParseNumber, all 
               "and 8-digit fast path included) as its separator-free counterpart; the unrestricted statement is refuted by kernel-evaluated "
               "witnesses for the integer-only / fraction-only / exponent-only / no-flag classes; (3) strip_preserves: for the class where "
               "every component has I+L+T+C (no base prefix/suffix, STANDARD required digits) an input the complete parser accepts as a "
-              "number is accepted as the same number after deleting all separators; refuted in general by the I+T+C class witness. "
-              "R2 / R3 are not theorems (witnesses for I+T+C and I+L+C only). The implementation is checked directly by the metamorphic "
+              "number is accepted as the same number after deleting all separators (refuted in general by the I+T+C class witness); (4) "
+              "insert_preserves: for the same class, separators inserted anywhere except directly before a sign keep the input accepted "
+              "as the same number. R2 is not a theorem (witnesses for I+T+C and I+L+C only). The implementation is checked directly by the metamorphic "
               "relations R1-R4 on exhaustive short and structured long inputs; on the unchanged tree this check reports violation classes.")
 LEVEL_NOTE = ("Trusted: Lean kernel; rustc; harness; the model is tied to the code by correspondence only. The relations are judged on "
               "implementation results, bounded by the input generators described under `rule`.")
